@@ -328,7 +328,8 @@ type c03lRun struct {
 
 	stopping *int32 // set while the harness is stopping the current link
 
-	mu     sync.Mutex
+	mu         sync.Mutex
+	forgePoint *btcec.PublicKey // commit point of the forged channel_reestablish under test
 	fails  []string // link failures reported through OnChannelFailure, not yet emitted
 	epoch  int
 	nextID int
@@ -457,9 +458,13 @@ func (r *c03lRun) newLink(ch *lnwallet.LightningChannel) error {
 		PreimageCache:          r.pcache,
 		OnChannelFailure: func(_ lnwire.ChannelID, _ lnwire.ShortChannelID, e LinkFailureError) {
 			why := c03lSink.reason(ch.ChannelPoint().String())
+			// this callback is where lnd's peer tells the remote side (error
+			// message) and the chain arbitrator: what is DURABLE at this very
+			// moment is what survives if the node dies right after the reply
+			marks := r.durableMarks()
 			r.mu.Lock()
-			r.fails = append(r.fails, fmt.Sprintf("epoch=%d stopping=%d code=%d action=%d err=%s why=%s",
-				epoch, atomic.LoadInt32(stopping), int(e.code), int(e.FailureAction),
+			r.fails = append(r.fails, fmt.Sprintf("epoch=%d stopping=%d code=%d action=%d %s err=%s why=%s",
+				epoch, atomic.LoadInt32(stopping), int(e.code), int(e.FailureAction), marks,
 				c03lClean(e.Error()), c03lClean(why)))
 			r.mu.Unlock()
 		},
@@ -509,6 +514,230 @@ func (r *c03lRun) newLink(ch *lnwallet.LightningChannel) error {
 	})
 	r.link, r.peer, r.tick = core, peer, bticker.Force
 	return nil
+}
+
+// durableMarks reads Alice's channel status from her database (not from the
+// link's in-memory state): ChanStatusBorked, ChanStatusLocalDataLoss and
+// whether the stored data-loss commit point is the one of the forged
+// channel_reestablish (lcp).
+func (r *c03lRun) durableMarks() string {
+	ch, err := r.aliceRestore()
+	if err != nil {
+		return "borked=? dl=? lcp=?"
+	}
+	st := ch.State()
+	b, d, lcp := 0, 0, "-"
+	if st.HasChanStatus(cstate.ChanStatusBorked) {
+		b = 1
+	}
+	if st.HasChanStatus(cstate.ChanStatusLocalDataLoss) {
+		d = 1
+		lcp = "bad"
+		r.mu.Lock()
+		want := r.forgePoint
+		r.mu.Unlock()
+		if pt, err := st.DataLossCommitPoint(); err == nil && pt != nil && want != nil &&
+			pt.IsEqual(want) {
+
+			lcp = "ok"
+		}
+	}
+	return fmt.Sprintf("borked=%d dl=%d lcp=%s", b, d, lcp)
+}
+
+// ---------------------------------------------------------------------------
+// what the link does with a channel_reestablish that is not the honest one
+// (the peer lost state / we lost state / inconsistent fields):
+//
+//   LV kind=<forgery> nl=.. rt=.. sec=.. pt=.. nonce=.. nonces=.. dyn=..
+//      => <proceed|failed|timeout> code=<sync|recovery|n> action=<forceclose|none|n>
+//         borked=<0|1> dl=<0|1> lcp=<ok|bad|-> sent=<kinds|-> ready=<0|1> stopping=<0|1> why=<..>
+//
+// borked / dl / lcp are read from Alice's DATABASE inside OnChannelFailure,
+// i.e. before anybody is told about the failure; sent = what her link sent
+// after its own channel_reestablish.
+// ---------------------------------------------------------------------------
+
+func (r *c03lRun) forgeFinal() {
+	if r.dead {
+		return
+	}
+	r.flap()
+	if r.dead || len(r.bobOut) != 1 {
+		r.stats[fmt.Sprintf("forge_skipped_dead%v_out%d", r.dead, len(r.bobOut))]++
+		return
+	}
+	hm, ok := r.bobOut[0].(*lnwire.ChannelReestablish)
+	r.bobOut = nil
+	if !ok {
+		return
+	}
+	m := *hm
+	dn, dt, sec, pt := 0, 0, "match", "match"
+	delta := func() int { return []int{-2, -1, -1, 1, 1, 2}[r.r.Intn(6)] }
+	switch x := r.r.Intn(12); {
+	case x < 1:
+	case x < 5:
+		dt = delta()
+	case x < 8:
+		dn = delta()
+	case x < 9:
+		sec = []string{"rand", "zero"}[r.r.Intn(2)]
+		dt = []int{0, 1}[r.r.Intn(2)]
+	case x < 10:
+		pt = []string{"rand", "absent"}[r.r.Intn(2)]
+		dt = []int{0, 1, -1}[r.r.Intn(3)]
+	default:
+		dt, dn = []int{-2, -1, 0, 1, 2}[r.r.Intn(5)], []int{-2, -1, 0, 1, 2}[r.r.Intn(5)]
+		sec = []string{"match", "match", "rand", "zero"}[r.r.Intn(4)]
+		pt = []string{"match", "match", "rand", "absent"}[r.r.Intn(4)]
+	}
+	nl := int64(hm.NextLocalCommitHeight) + int64(dn)
+	tl := int64(hm.RemoteCommitTailHeight) + int64(dt)
+	if nl < 0 {
+		nl = 0
+	}
+	if tl < 0 {
+		tl = 0
+	}
+	m.NextLocalCommitHeight, m.RemoteCommitTailHeight = uint64(nl), uint64(tl)
+	switch sec {
+	case "match":
+		m.LastRemoteCommitSecret = [32]byte{}
+		if tl > 0 {
+			sc, err := r.prodA.AtIndex(uint64(tl - 1))
+			if err != nil {
+				return
+			}
+			copy(m.LastRemoteCommitSecret[:], sc[:])
+		}
+	case "rand":
+		r.r.Read(m.LastRemoteCommitSecret[:])
+	case "zero":
+		m.LastRemoteCommitSecret = [32]byte{}
+	}
+	switch pt {
+	case "match":
+		if nl > 0 {
+			sc, err := r.prodB.AtIndex(uint64(nl - 1))
+			if err != nil {
+				return
+			}
+			m.LocalUnrevokedCommitPoint = input.ComputeCommitmentPoint(sc[:])
+		}
+	case "rand":
+		var b [32]byte
+		r.r.Read(b[:])
+		b[0] &= 0x7f
+		b[31] |= 1
+		_, pub := btcec.PrivKeyFromBytes(b[:])
+		m.LocalUnrevokedCommitPoint = pub
+	case "absent":
+		m.LocalUnrevokedCommitPoint = nil
+	}
+	kind := fmt.Sprintf("n%+d,t%+d,s:%s,p:%s", dn, dt, sec, pt)
+	if dn == 0 && dt == 0 && sec == "match" && pt == "match" {
+		kind = "honest"
+	}
+	got, res := c03lWireRT(&m)
+	dec, isRe := got.(*lnwire.ChannelReestablish)
+	if res != "ok" || !isRe {
+		return
+	}
+	r.mu.Lock()
+	r.forgePoint = dec.LocalUnrevokedCommitPoint
+	r.mu.Unlock()
+	fields := r.reestFields("B", dec)
+	link := r.link
+	link.HandleChannelUpdate(dec)
+	// the link's answer: a failure (OnChannelFailure) or a completed
+	// resynchronisation (markReestablished: every retransmission has been sent)
+	verdict, fail := "timeout", ""
+	deadline := time.Now().Add(30 * time.Second)
+	for time.Now().Before(deadline) {
+		// only a failure of THIS link counts (a late report of the link
+		// stopped before stays in the list and is emitted as usual)
+		cur := fmt.Sprintf("epoch=%d ", r.epoch)
+		r.mu.Lock()
+		for i, f := range r.fails {
+			if strings.HasPrefix(f, cur) {
+				fail = f
+				r.fails = append(append([]string{}, r.fails[:i]...), r.fails[i+1:]...)
+				break
+			}
+		}
+		r.mu.Unlock()
+		if fail != "" {
+			verdict = "failed"
+			break
+		}
+		if atomic.LoadInt32(&link.reestablished) == 1 {
+			verdict = "proceed"
+			break
+		}
+		time.Sleep(200 * time.Microsecond)
+	}
+	// what she sent on this connection after her own channel_reestablish
+	var sent []string
+	ready, seenReest := 0, false
+	for done := false; !done; {
+		select {
+		case am := <-r.peer.sentMsgs:
+			k := c03lKind(am)
+			switch {
+			case k == "reest":
+				seenReest = true
+			case k == "channel_ready":
+				ready = 1
+			case seenReest:
+				sent = append(sent, k)
+			}
+		default:
+			done = true
+		}
+	}
+	list := "-"
+	if len(sent) > 0 {
+		list = strings.Join(sent, ",")
+	}
+	kv := func(f, k string) string {
+		for _, w := range strings.Fields(f) {
+			if strings.HasPrefix(w, k+"=") {
+				return w[len(k)+1:]
+			}
+		}
+		return "-"
+	}
+	code, action := "-", "-"
+	if fail != "" {
+		switch kv(fail, "code") {
+		case strconv.Itoa(int(ErrSyncError)):
+			code = "sync"
+		case strconv.Itoa(int(ErrRecoveryError)):
+			code = "recovery"
+		default:
+			code = kv(fail, "code")
+		}
+		switch kv(fail, "action") {
+		case strconv.Itoa(int(LinkFailureForceClose)):
+			action = "forceclose"
+		case strconv.Itoa(int(LinkFailureForceNone)):
+			action = "none"
+		default:
+			action = kv(fail, "action")
+		}
+	}
+	marks := r.durableMarks()
+	if fail != "" {
+		marks = fmt.Sprintf("borked=%s dl=%s lcp=%s", kv(fail, "borked"), kv(fail, "dl"), kv(fail, "lcp"))
+	}
+	r.emit("LV kind=%s %s => %s code=%s action=%s %s sent=%s ready=%d stopping=%s why=%s\n", kind, fields,
+		verdict, code, action, marks, list, ready, kv(fail, "stopping"), kv(fail, "why"))
+	r.stats["forged_reestablish"]++
+	r.stats["forged_"+verdict]++
+	r.mu.Lock()
+	r.forgePoint = nil
+	r.mu.Unlock()
 }
 
 // skeleton fields of a channel state as it is on disk.
@@ -1250,6 +1479,9 @@ func c03lRunCase(t *testing.T, id int, seed int64, steps, flapEvery int) (*bytes
 			r.flap()
 			r.drain()
 		}
+		// the last connection of the case: the peer's channel_reestablish
+		// is stale / ahead / inconsistent
+		r.forgeFinal()
 	}
 	r.flushFails()
 	r.emit("END\n")
